@@ -22,7 +22,7 @@ __CPROVER_assigns()
 __CPROVER_ensures(__CPROVER_return_value == (it.pos != g_len))
 ;
 occ_t pit_deref(fsm_t* self, pit_t it)
-__CPROVER_requires(it.epoch == g_epoch && it.pos < g_len)                        /*@ob C20.no-dereference-of-an-invalid-or-end-iterator */
+__CPROVER_requires(it.epoch == g_epoch && it.pos < g_len)                        /*@ob C20,C04.no-dereference-of-an-invalid-or-end-iterator */
 __CPROVER_assigns()
 __CPROVER_ensures(__CPROVER_return_value.pos == it.pos)
 ;
@@ -31,7 +31,7 @@ __CPROVER_assigns(g_must_erase)
 __CPROVER_ensures(__CPROVER_return_value == g_marked_here && g_must_erase == g_marked_here)
 ;
 pit_t pool_erase(fsm_t* self, pit_t it)
-__CPROVER_requires(it.epoch == g_epoch && it.pos < g_len)                        /*@ob C20.erase-of-a-valid-iterator */
+__CPROVER_requires(it.epoch == g_epoch && it.pos < g_len)                        /*@ob C20,C04.erase-of-a-valid-iterator */
 __CPROVER_requires(g_marked_here)                                                /*@ob C04,C05.only-processed-occurrences-are-removed */
 __CPROVER_assigns(g_len, g_erased, g_marked_here, g_must_erase)
 __CPROVER_ensures(!g_must_erase && g_len == __CPROVER_old(g_len) - 1 && g_erased == __CPROVER_old(g_erased) + 1)
@@ -45,7 +45,7 @@ __CPROVER_ensures(__CPROVER_return_value.pos == it.pos + 1 && __CPROVER_return_v
 /* event.try_process(self(), cur_seq_cnt) : deferred_event / completion_event_occurrence try_process units */
 optres_t occ_try_process(occ_t ev, fsm_t* self, uint16_t seq)
 __CPROVER_requires(!g_marked_here)                                               /*@ob C04,C05.a-processed-occurrence-is-never-dispatched-again */
-__CPROVER_requires(seq == self->event_pool.cur_seq_cnt)                          /*@ob C05.current-cycle-number-passed-to-the-occurrence */
+__CPROVER_requires(seq == self->event_pool.cur_seq_cnt)                          /*@ob C05,C04.current-cycle-number-passed-to-the-occurrence */
 __CPROVER_requires(ev.pos < g_len)
 __CPROVER_assigns(g_len, g_epoch, g_dispatches, g_marked_here, g_nondef, g_nodefbit)
 __CPROVER_ensures(g_nodefbit == __CPROVER_old(g_nodefbit) + ((__CPROVER_return_value.has && !((int)__CPROVER_return_value.v & HANDLED_DEFERRED)) ? 1 : 0))
@@ -58,7 +58,7 @@ size_t do_process_event_pool(fsm_t* self, size_t max_events)
 __CPROVER_requires(__CPROVER_is_fresh(self, sizeof(*self)) && 1 <= g_len && g_len < SIZE_CAP && max_events >= 1 && g_dispatches == 0 && g_erased == 0 && g_nondef == 0 && g_nodefbit == 0 && !g_must_erase)
 __CPROVER_assigns(g_must_erase, self->event_pool.cur_seq_cnt, g_len, g_epoch, g_dispatches, g_erased, g_marked_here, g_nondef, g_nodefbit)
 __CPROVER_ensures(__CPROVER_return_value <= g_dispatches)                        /*@ob C04.processed-count-counts-only-dispatched-occurrences */
-__CPROVER_ensures(__CPROVER_return_value <= max_events)                          /*@ob C04.single-step-variant-stops-after-max-events */
+__CPROVER_ensures(__CPROVER_return_value <= max_events)                          /*@ob C04,C10.single-step-variant-stops-after-max-events */
 __CPROVER_ensures(__CPROVER_return_value == g_nondef)                            /*@ob C04.every-dispatched-event-counts-as-processed-whether-or-not-it-was-handled */
 __CPROVER_ensures(g_nondef < max_events ==> self->event_pool.cur_seq_cnt == (uint16_t)(__CPROVER_old(self->event_pool.cur_seq_cnt) + g_nodefbit))   /*@ob C05.a-new-deferral-cycle-after-every-dispatch-that-did-not-defer-again-and-only-then */
 __CPROVER_ensures(g_nondef <= max_events)                                        /*@ob C04.a-bounded-drain-dispatches-at-most-max-events-events-the-single-step-exactly-the-oldest */
